@@ -111,7 +111,7 @@ def environ_of(msg, cfg, peer):
             path = path[len(prefix) :]
     ver = msg.version.decode() if msg.version in (b"1.0", b"1.1") else "1.0"
     env = {
-        "REQUEST_METHOD": msg.method.decode("latin-1").upper(),
+        "REQUEST_METHOD": msg.method.decode("latin-1"),  # methods are case-sensitive: the image is exact
         "SERVER_PROTOCOL": "HTTP/" + ver,
         "SCRIPT_NAME": script,
         "PATH_INFO": path,
@@ -276,6 +276,10 @@ def judge(case, got, wire, escaped):
 
 def cases(tier):
     methods = [(b"GET", b"HTTP/1.1"), (b"POST", b"HTTP/1.0"), (b"OPTIONS", b"HTTP/1.1")] if tier == "quick" else [(m, v) for m in (b"GET", b"POST", b"OPTIONS", b"PURGE") for v in (b"HTTP/1.1", b"HTTP/1.0")]
+    # methods that are not upper-case may be refused (policy); if served they must be shown as sent
+    for m in (b"Get", b"PoST", b"get", b"M-Search", b"M-SEARCH"):
+        for body in ("none", "cl"):
+            yield dict(cfg=0, stream=build_request(m, b"/a/b", b"HTTP/1.1", HEADER_SETS[1], body), label=(m, b"HTTP/1.1", b"/a/b", 1, body))
     for ci in range(len(CONFIGS)):
         for (method, ver), target, hs, body in itertools.product(methods, TARGETS, range(len(HEADER_SETS)), BODIES):
             if body in ("chunked", "big-chunked", "huge-chunked") and ver != b"HTTP/1.1":
